@@ -67,6 +67,52 @@ func ternaryConstName(c *Ctx, v ssa.Value) (string, bool) {
 	return enumName(t, k.Value), true
 }
 
+// relOwner: the listed function a truth test is accounted to — the function itself, or the listed function it is
+// a private helper of (called from nowhere else), so that moving a short-circuit into a helper keeps its listing.
+var relOwnerMemo = map[*core.Prog]map[*ssa.Function]string{}
+
+func relOwner(c *Ctx, fn *ssa.Function) string {
+	m, ok := relOwnerMemo[c.P]
+	if !ok {
+		m = map[*ssa.Function]string{}
+		var listed []string
+		for n := range relOtherTests {
+			listed = append(listed, n)
+		}
+		listed = append(listed, relMustTestTrue...)
+		sort.Strings(listed)
+		for _, n := range listed {
+			if f := c.P.Func(n); f != nil {
+				for h := range privateHelpersOf(c.P, f, 2) {
+					if _, taken := m[h]; !taken && relOtherTests[c.P.Name(h)] == nil {
+						m[h] = n
+					}
+				}
+			}
+		}
+		relOwnerMemo[c.P] = m
+	}
+	if o, ok := m[fn]; ok {
+		return o
+	}
+	return c.P.Name(fn)
+}
+
+// multisetWithin: every element of a occurs in b at least as often.
+func multisetWithin(a, b []string) bool {
+	cnt := map[string]int{}
+	for _, x := range b {
+		cnt[x]++
+	}
+	for _, x := range a {
+		cnt[x]--
+		if cnt[x] < 0 {
+			return false
+		}
+	}
+	return true
+}
+
 func ruleRel1(c *Ctx) {
 	found := map[string][]string{}
 	pos := map[string]string{}
@@ -92,7 +138,7 @@ func ruleRel1(c *Ctx) {
 			}
 			c.Touch(fn)
 			class := map[string]string{"TRUE": "T|FU", "FALSE": "F|TU", "UNKNOWN": "U|TF"}[name]
-			fname := c.P.Name(fn)
+			fname := relOwner(c, fn)
 			found[fname] = append(found[fname], class)
 			if pos[fname] == "" {
 				pos[fname] = c.Pos(iff)
@@ -118,7 +164,7 @@ func ruleRel1(c *Ctx) {
 		key := n + ": ternary truth tests"
 		allowed := append([]string(nil), relOtherTests[n]...)
 		sort.Strings(allowed)
-		if strings.Join(other, ",") == strings.Join(allowed, ",") {
+		if multisetWithin(other, allowed) {
 			c.Ok(key, pos[n], fmt.Sprintf("%d test(s) act on TRUE only%s", nTrue, map[bool]string{true: "; listed short-circuit / rendering tests: " + strings.Join(other, ", "), false: ""}[len(other) > 0]))
 			continue
 		}
